@@ -12,7 +12,7 @@ def cfg(nq, nt, preds, rule, assume=None, tb=None):
             "assumptions": COMMON_ASSUME + (assume or []), "trusted_base": tb or []}
 
 # properties whose theorems rest on the closed-form formulas of kinematics_impl.rs also re-check the source tie
-SRC_TIED = ["C01", "C02", "C03", "C04", "C05", "C06", "C15"]
+SRC_TIED = ["C01", "C02", "C03", "C04", "C05", "C06", "C07", "C08", "C15", "C18"]
 
 PROPS = {
     "C03": cfg(20000, 1000000, ["C03."],
@@ -129,7 +129,7 @@ PROPS = {
                "returned plan is recomputed by the model from the landing solution. non-trivial = a plan was returned"),
 }
 
-for _p, _m in [("C04", "C04b"), ("C06", "C06b"), ("C08", "C08b"), ("C15", "C15b")]:
+for _p, _m in [("C01", "C01c"), ("C04", "C04b"), ("C06", "C06b"), ("C08", "C08b"), ("C15", "C15b"), ("C15", "C15c")]:
     PROPS[_p] = dict(PROPS[_p], extra_modules=list(PROPS[_p].get("extra_modules", [])) + [_m])
 
 for _p in SRC_TIED:
